@@ -192,6 +192,7 @@ var S *Sim
 
 // New creates a simulation bound to tape. Must be called inside a synctest bubble.
 func New(tape *Tape) *Sim {
+	FailOpen = nil
 	ResetPools()
 	defer func() {
 		if TraceYields && S != nil {
@@ -966,6 +967,14 @@ func (s *Sim) CurTask() int {
 }
 
 func (s *Sim) CurInc() int { return s.incOfCaller() }
+
+// CurTaskName returns the name the running task was spawned with ("" outside tasks).
+func (s *Sim) CurTaskName() string {
+	if s.cur == nil {
+		return ""
+	}
+	return s.cur.name
+}
 
 // LastTask describes the task that held the baton last (diagnostics, scheduler context).
 func (s *Sim) LastTask() string {
